@@ -1128,6 +1128,10 @@ impl CanonicalizeContext {
 					let child = as_element(children[0]);
 					mathml.replace_children(child.children());
 					set_mathml_name(mathml, name(&child));
+					if mathml.attribute_value(CHANGED_ATTR) == Some(ADDED_ATTR_VALUE) {
+						// the mrow was added (e.g., from mpadded) but the child that takes its place was not
+						mathml.remove_attribute(CHANGED_ATTR);
+					}
 					add_attrs(mathml, &child.attributes());
 					return Some(mathml);		// child has already been cleaned, so we can return
 				}
